@@ -94,6 +94,7 @@ func c16Unit(c *RunCtx, unit int) {
 	}
 	mailFault := ""
 	again := time.Duration(0)
+	pairN := 0
 	pair := func(kind, what string, build func(variant int) (world.Req, string)) {
 		base := w.SaveState()
 		jar := world.NewBrowser(90)
@@ -101,6 +102,28 @@ func c16Unit(c *RunCtx, unit int) {
 		if r.Intn(2) == 0 {
 			w.Do(jar, world.Req{Method: "GET", Path: "/app/set?k=app_theme&v=dark"})
 			base = w.SaveState()
+		}
+		// ... or state left by an earlier flow of the visitor's own: the password step of his own
+		// second-factor account, never finished (every third pair; not drawn from r)
+		if pairN++; pairN%3 == 2 {
+			_, p0 := build(0)
+			_, p1 := build(1)
+			for _, own := range s.Accts {
+				u := w.Store.Peek(own.PID)
+				if strings.Contains(p0, own.PID) || strings.Contains(p1, own.PID) {
+					continue // his OWN account, not the one the pair is about
+				}
+				if u == nil || own.Pw == "" || (u.TOTPSecretKey == "" && u.SMSPhone == "") || u.Locked.After(w.Now()) || (cfg.Has("confirm") && !u.Confirmed) {
+					continue
+				}
+				w.Do(jar, world.Req{Method: "POST", Path: w.P("/login"), Form: map[string]string{"email": own.PID, "password": own.Pw}})
+				if m := w.Sess.Of(jar); m["totp_pending"] != "" || m["sms_pending"] != "" {
+					c.Stats.Count("pairs-in-a-session-with-a-parked-second-factor-login")
+					what += "/parked-2fa-login"
+				}
+				base = w.SaveState()
+				break
+			}
 		}
 		var obs [2]string
 		var recs [2]*world.Rec
@@ -287,7 +310,7 @@ func c16Unit(c *RunCtx, unit int) {
 func init() {
 	register(&Check{
 		ID: "C16", Level: "exploration",
-		Rule:  "two-run monitor: from one snapshot of the whole world (storage, sessions, jar, outboxes, virtual clock) request A is run, the outcome recorded, the snapshot restored, request B run; status, every header, body, the browser's resulting session map and cookie jar are compared byte for byte (only the sid value and the submitted identifier canonicalised). Pairs: (a) correct vs incorrect password / OTP for a locked, confirmed account; (b) recovery start for an existing vs a similar non-existing identifier, asked once and asked twice in a row (1 s / 5 s / 2 min apart: the existing account then holds a pending token); (c) login / OTP login for an unknown identifier vs a known one with a wrong secret, restricted — decided from storage and the statement's lock automaton BEFORE running — to accounts that are not locked and that this attempt does not lock; the known side also includes accounts whose stored password is no usable hash (OAuth2-created, empty, foreign format, truncated). Account states come from a random prelude of failures, successes, manual lock/unlock and clock advances over random module subsets, load orders of lock/confirm, LockAfter 1-4, with rm/redir present or not, form and JSON. distinct_nontrivial = distinct (pair kind, account state, mode, load order, outcome) signatures.",
+		Rule:  "two-run monitor: from one snapshot of the whole world (storage, sessions, jar, outboxes, virtual clock) request A is run, the outcome recorded, the snapshot restored, request B run; status, every header, body, the browser's resulting session map and cookie jar are compared byte for byte (only the sid value and the submitted identifier canonicalised). Pairs: (a) correct vs incorrect password / OTP for a locked, confirmed account; (b) recovery start for an existing vs a similar non-existing identifier, asked once and asked twice in a row (1 s / 5 s / 2 min apart: the existing account then holds a pending token); (c) login / OTP login for an unknown identifier vs a known one with a wrong secret, restricted — decided from storage and the statement's lock automaton BEFORE running — to accounts that are not locked and that this attempt does not lock; the known side also includes accounts whose stored password is no usable hash (OAuth2-created, empty, foreign format, truncated). Account states come from a random prelude of failures, successes, manual lock/unlock and clock advances over random module subsets, load orders of lock/confirm, LockAfter 1-4, with rm/redir present or not, form and JSON. Every third pair runs in a session that holds the visitor's own parked second-factor login (state left by an earlier flow). distinct_nontrivial = distinct (pair kind, account state, mode, load order, outcome) signatures.",
 		Units: func(t string) int { return tierN(t, 500, 40000) },
 		Run:   c16Unit,
 		Floors: func(t string) map[string]int {
